@@ -197,6 +197,30 @@ ADDED = {
            "two representations of the multi-value store updated together.",
 }
 
+ADDED3 = {
+    "C01": "Round 3: exact separator discipline in the object parsers (no splitlines / argument-less split).",
+    "C02": "Round 3: appended thin-pack bases enter the trailer digest, stored deltas reused only behind a base membership test, chain walk re-binds the offset.",
+    "C03": "Round 3: size header ends on a clear continuation bit, copy size 0 = 0x10000 (both twins).",
+    "C04": "Round 3: sentinel scans terminate on an empty read, packs opened only as .pack/.idx pairs.",
+    "C05": "Round 3: the pusher never consults the receiver's object store, ext_refs unfiltered, shallow minus not_shallow.",
+    "C06": "Round 3: atomic refused when not advertised on every transport, validation covers every command, refs only through CAS.",
+    "C07": "Round 3: closing wrappers, no in-place write under the lock, FileLocked never swallowed outside file.py.",
+    "C08": "Round 3: loose-before-packed removal order and loose-then-packed read order claimed here too (shared with C09/C10).",
+    "C09": "Round 3: objects before the index in the staging functions; lock commit/abort typestate and FileLocked discipline shared with C07.",
+    "C10": "Round 3: gc.pruneExpire never None, MIDX readers survive a vanished pack (shared with C14).",
+    "C11": "Round 3: name length by mask, every index write passes version and extensions.",
+    "C13": "Round 3: flag map of _find_lcas is monotone, exclusion propagation in the walker complete.",
+    "C14": "Round 3: bitmaps combined within one pack only, commit-graph parents filtered like object parents.",
+    "C15": "Round 3: bisect range convention and Tree entry shape agree between the twins.",
+    "C16": "Round 3: add_if_new decides through the merged read and the resolved value; namespace views answer in their own names.",
+    "C17": "Round 3: symlink arm removes before linking, validated patch path = path acted on, _is_ntfs_dotgit skips the leading run only, "
+           "LEAF SYMLINK: every write-mode open of a work-tree path behind a non-following symlink decision (found F17.8/F17.9).",
+    "C19": "Round 3: want-line tail stripped by the reader, BufferedPktLineWriter.flush never skips buffered bytes.",
+    "C20": "Round 3: regex scanners escape-aware, LF-only line framing, un-escaping in one tokenising pass.",
+}
+for _k, _v in ADDED3.items():
+    ADDED[_k] = (ADDED.get(_k, "") + " " + _v).strip()
+
 NOT_APPLICABLE = {
     "C12": "Inverse-ness of build/flatten and soundness/completeness of a tree diff are relations over runtime tree "
            "values; the only clause visible in the code's shape (entries always serialised through the one canonical "
